@@ -442,9 +442,8 @@ func parseParams(arr *T) (params []string, lazy []bool, variadic bool, rest stri
 		params = append(params, n)
 		lazy = append(lazy, strings.HasPrefix(n, "#"))
 	}
-	if variadic && strings.HasPrefix(rest, "#") {
-		panic(Unmodelled{"lazy variadic tail"})
-	}
+	// a variadic tail is never lazy, whatever its name looks like: its arguments are evaluated before the call and
+	// the list is bound to the name as written (including a leading '#')
 	return params, lazy, variadic, rest, true
 }
 
